@@ -81,11 +81,16 @@ def slot_variants():
         "space-before-colon": (b"X-A : 1",), "no-colon": (b"X-A 1",), "empty-name": (b": 1",),
         "nul": (b"X-A: a\x00b",), "cr": (b"X-A: a\rb",), "del": (b"X-A: a\x7fb",), "obs-text": (b"X-A: \xe9\xff",),
         "ctl": (b"X-A: a\x01b",), "name-nonascii": (b"X-\xe9: 1",), "name-slash": (b"X/A: 1",),
+        "fold-ff": (b"X-A: 1", b" 2\x0c"), "fold-vt-lead": (b"X-A: 1", b" \x0b2"), "fold-us": (b"X-A: 1", b" 2\x1f"),
+        "fold-nbsp": (b"X-A: 1", b" 2\xa0"), "fold-nel-lead": (b"X-A: 1", b" \x852"), "fold-cr": (b"X-A: 1", b" 2\r"),
+        "value-ff": (b"X-A: 1\x0c",), "value-nbsp": (b"X-A: \xa01\xa0",),
         "only-ws-value": (b"X-A:   \t ",), "colon-in-value": (b"X-A: a:b: c",), "empty-line-ws": (b"X-A: 1", b" "),
     }
     for k, hv in hdrs.items():
         add("hdr:" + k, build(extra=hv))
     add("hdr:fold-first", build(host=(b" folded", b"Host: x")))
+    add("te:fold-ff", build(method=b"POST", framing=(b"Transfer-Encoding:", b" chunked\x0c"), body=chunked([b"abc"])))
+    add("cl:fold-cr", build(method=b"POST", framing=(b"Content-Length:", b" 3\r"), body=b"abc"))
     cl = {
         "0": (b"Content-Length: 0", b""), "3": (b"Content-Length: 3", b"abc"), "3,3": (b"Content-Length: 3,3", b"abc"),
         "3, 3": (b"Content-Length: 3, 3", b"abc"), "3 , 3": (b"Content-Length: 3 , 3", b"abc"),
@@ -120,6 +125,10 @@ def slot_variants():
         "neg": chunked([b"abc"], size_fmt=lambda n: b"-%x" % n),
         "plus": chunked([b"abc"], size_fmt=lambda n: b"+%x" % n),
         "underscore": chunked([b"abc" * 6], size_fmt=lambda n: b"1_2"),
+        "size-nonascii": chunked([b"abc"], size_fmt=lambda n: b"%x\xe9" % n),
+        "size-nonascii-lead": chunked([b"abc"], size_fmt=lambda n: b"\xff%x" % n),
+        "size-fullwidth": chunked([b"abc"], size_fmt=lambda n: "\uff13".encode()),
+        "ext-nonascii": chunked([b"abc"], size_fmt=lambda n: b"%x;name=caf\xe9" % n),
         "empty-size": chunked([b"abc"], size_fmt=lambda n: b""),
         "long-size": chunked([b"abc"], size_fmt=lambda n: b"0" * 63 + b"%x" % n),
         "bad-term-XX": chunked([b"abc"], term=b"XX"),
@@ -175,28 +184,49 @@ EDIT_SEEDS = [
 
 
 class Recorder:
-    def __init__(self):
+    def __init__(self, deferred=False):
         self.reqs = []
+        self.deferred = deferred      # the application answers later (after the client has half-closed)
+        self.pending = []
 
     def __call__(self, request):
-        from tornado import httputil
         hdrs = {}
         for k, v in request.headers.get_all():
             hdrs.setdefault(k.lower(), []).append(v)
         self.reqs.append((request.method, request.uri, request.version, hdrs, request.body))
-        request.connection.write_headers(
-            httputil.ResponseStartLine("HTTP/1.1", 200, "OK"),
-            httputil.HTTPHeaders({"Content-Length": "2"}), b"ok")
-        request.connection.finish()
+        if self.deferred:
+            self.pending.append(request)
+        else:
+            self.respond(request)
+
+    def respond(self, request):
+        from tornado import httputil, iostream
+        try:
+            request.connection.write_headers(
+                httputil.ResponseStartLine("HTTP/1.1", 200, "OK"),
+                httputil.HTTPHeaders({"Content-Length": "2"}), b"ok")
+            request.connection.finish()
+        except iostream.StreamClosedError:
+            pass
+
+    def release(self):
+        n = len(self.pending)
+        while self.pending:
+            self.respond(self.pending.pop(0))
+        return n
 
 
-def execute(stream, segs):
-    rec = Recorder()
+def execute(stream, segs, deferred=False):
+    rec = Recorder(deferred)
     with World() as w:
         c = ServerConn(w, rec)
         c.send_segments(segs)
         c.eof()
         w.pump()
+        for _ in range(8):            # deferred application: answer now, one request after the other
+            if not rec.release():
+                break
+            w.pump()
         closed = c.closed
         out = c.output
         logs = [r for r in w.logs.records if r[0] != "tornado.access"]
@@ -316,6 +346,15 @@ class C01(Check):
         else:
             segs_list += [en.segments(stream, (c,)) for c in range(1, len(stream), stride)]
         segs_list.append([stream[i:i + 1] for i in range(len(stream))])
+        if sum(1 for it in ref if it[0] == "req") >= 2:
+            # pipelined requests, the application answers only after the client has sent FIN: same deliveries
+            obs = execute(stream, [stream], deferred=True)
+            self.record(label + "|deferred-app", stream, [stream], obs, ref, st, quiet=True)
+            if obs[0] != base[0]:
+                st.violation("deferred-application:delivered-differs:%s" % label.split(":")[0],
+                             "input %s: an application that answers after the client's FIN is delivered %d requests, "
+                             "a synchronous one %d" % (label, len(obs[0]), len(base[0])),
+                             {"label": label, "stream": stream, "segs": [len(stream)], "deferred": True})
         for segs in segs_list:
             obs = execute(stream, segs)
             self.record(label, stream, segs, obs, ref, st, quiet=True)
@@ -351,7 +390,7 @@ class C01(Check):
         for n in case["segs"]:
             segs.append(stream[p:p + n])
             p += n
-        obs = execute(stream, segs)
+        obs = execute(stream, segs, deferred=bool(case.get("deferred")))
         ref = ref_http.read_requests(stream)
         return ("stream %r\nsegments %r\nreference %r\ndelivered %r\noutput %r\nclosed %r\nlogs %r\nverdict %r"
                 % (stream, case["segs"], ref, obs[0], obs[1], obs[2], obs[3], judge(stream, obs, ref)[0]))
